@@ -618,7 +618,8 @@ func (streamSetSelf *StreamSetForInterfaceDef) Union(input *StreamSetForInterfac
 		}
 	}
 
-	return result
+	// the streams carried over unchanged must not stay shared with the operands
+	return result.Clone()
 }
 
 // Intersection Get the Intersection with this StreamSetForInterface and an another StreamSetForInterface
@@ -641,7 +642,8 @@ func (streamSetSelf *StreamSetForInterfaceDef) Intersection(input *StreamSetForI
 		}
 	}
 
-	return result
+	// the streams carried over unchanged must not stay shared with the operands
+	return result.Clone()
 }
 
 // MinusStreams Minus the Stream values by their keys(keys will not be changed but Stream values will)
@@ -696,7 +698,9 @@ func (streamSetSelf *StreamSetForInterfaceDef) Minus(input *StreamSetForInterfac
 		return NewStreamSetForInterface()
 	}
 
-	return &StreamSetForInterfaceDef{SetForInterfaceDef: *streamSetSelf.SetForInterfaceDef.Minus(&input.SetForInterfaceDef)}
+	result := &StreamSetForInterfaceDef{SetForInterfaceDef: *streamSetSelf.SetForInterfaceDef.Minus(&input.SetForInterfaceDef)}
+	// the remaining streams must not stay shared with the receiver
+	return result.Clone()
 }
 
 /**
